@@ -196,10 +196,6 @@ def classify(ref, L, contract, observed, out):
         sum(1 for l in ref.none.split('\n') if FENCE.match(rest_of(l)))
     if fence and contract != 'c10c':
         return 'code-span-delimiter-at-line-start-becomes-fence'
-    if out and BROKEN_AUTOLINK.search(out) and not BROKEN_AUTOLINK.search(ref.none):
-        return 'angle-bracket-text-broken-across-lines-becomes-autolink'
-    if out and any(ZERO_MARKER.match(l) for l in lines) and not any(ZERO_MARKER.match(l) for l in ref.none.split('\n')):
-        return 'zero-digit-list-marker-at-line-start'
     if contract == 'c10c':
         # wrapping is switched off where the child budget is exactly 0: the same lines are
         # wrapped again with L + 1 (a budget of 1)
@@ -209,9 +205,12 @@ def classify(ref, L, contract, observed, out):
             nxt = set()
         if not (set(observed['lines_over_limit']) & nxt):
             return 'child-budget-zero-disables-wrap'
-        if fence:
-            return 'code-span-delimiter-at-line-start-becomes-fence'
-        return 'line-over-limit-with-breakable-blank'
+    if out and BROKEN_AUTOLINK.search(out) and not BROKEN_AUTOLINK.search(ref.none):
+        return 'angle-bracket-text-broken-across-lines-becomes-autolink'
+    if out and any(ZERO_MARKER.match(l) for l in lines) and not any(ZERO_MARKER.match(l) for l in ref.none.split('\n')):
+        return 'zero-digit-list-marker-at-line-start'
+    if contract == 'c10c':
+        return 'code-span-delimiter-at-line-start-becomes-fence' if fence else 'line-over-limit-with-breakable-blank'
     return 'unclassified'
 
 
